@@ -29,24 +29,36 @@ def pval(d, mod_ns):
 PARAM_SRC = '''
 from pymtl3 import *
 class Leaf(Component):
-  def construct(s, T, k, tag=None, opt=0):
+  def construct(s, T, k, inc=1, tag=None, opt=0):
     s.i = InPort(T); s.o = OutPort(T)
     s.r = Wire(T)
     K = int(k) & 3
+    INC = int(inc) & 3
     @update
-    def up(): s.o @= s.i + s.r + K
+    def up(): s.o @= (s.i + s.r + K) ^ INC
     @update_ff
     def ff(): s.r <<= s.i
 class Leaf2(Component):
-  def construct(s, T, k, tag=None, opt=0):
+  def construct(s, T, k, inc=1, tag=None, opt=0):
     s.i = InPort(T); s.o = OutPort(T)
     K = int(k) & 3
+    INC = int(inc) & 3
     @update
-    def up(): s.o @= s.i ^ K
+    def up(): s.o @= (s.i ^ K) + INC
+def _mk(c, T):
+  cls = Leaf if c[0] == 0 else Leaf2
+  kw = {}
+  # c[4] = call shape: which defaulted parameters are passed (by keyword); the others are left at their defaults
+  if c[4] & 1: kw["inc"] = c[5]
+  if c[4] & 2: kw["tag"] = c[2]
+  if c[4] & 4: kw["opt"] = c[3]
+  if c[4] & 8:
+    return cls(T, c[1], c[5] if c[4] & 1 else 1, **{k: v for k, v in kw.items() if k != "inc"})      # inc positional
+  return cls(T, c[1], **kw)
 class Mid(Component):
   def construct(s, T, cfgs):
     s.i = InPort(T); s.o = [OutPort(T) for _ in range(len(cfgs))]
-    s.leafs = [ (Leaf if c[0] == 0 else Leaf2)(T, c[1], tag=c[2], opt=c[3]) for c in cfgs ]
+    s.leafs = [ _mk(c, T) for c in cfgs ]
     for j in range(len(cfgs)):
       s.leafs[j].i //= s.i
       s.o[j] //= s.leafs[j].o
@@ -74,11 +86,10 @@ def build(item, G):
   mod = G.load_source(PARAM_SRC, "c13p")
   T = pval(item["T"], None)
   if item["type"] == "param":
-    groups = [[(c[0], pval(c[1], None), pval(c[2], None), pval(c[3], None)) for c in g] for g in item["groups"]]
+    groups = [[(c[0], pval(c[1], None), pval(c[2], None), pval(c[3], None), c[4], c[5]) for c in g] for g in item["groups"]]
     return mod, mod.ParamTop(T, groups)
-  c = item["cfg"]      # single leaf stand-alone
-  cls = mod.Leaf if c[0] == 0 else mod.Leaf2
-  return mod, cls(T, pval(c[1], None), tag=pval(c[2], None), opt=pval(c[3], None))
+  c = item["cfg"]      # single leaf stand-alone, constructed with the SAME call shape
+  return mod, mod._mk((c[0], pval(c[1], None), pval(c[2], None), pval(c[3], None), c[4], c[5]), T)
 
 
 def main(argv):
